@@ -315,19 +315,30 @@ def run(prop, tier, seed, out, timeout, miri=False, **kw):
     n = (40 if tier == "quick" else 120) if miri else (800 if tier == "quick" else 5000)
     gens = [gen(rng, i) for i in range(n)]
     violations = []
+    rejected = []
     per = 40 if miri else 250
     evaluations = 0
     for b in range(0, len(gens), per):
         chunk = gens[b:b + per]
         rc, outp = run_batch(("c15m_b%d" if miri else "c15_b%d") % (b // per), chunk, timeout, miri=miri)
         if rc is None:
-            # which program does not compile?  every generated pattern is documented as supported
+            # which programs do not compile?  every generated pattern is documented as supported, so this is
+            # not an ownership verdict by itself: the offenders are set aside (reported as exit 2 at the end
+            # unless a real violation is found) and the rest of the batch still runs
             okl, outl = driver.build_lib()
-            singles = [PRELUDE + render_fn(0, g) + "\n" for g in chunk]
-            v = driver.rustc_verdicts(singles) if okl else []
+            if not okl:
+                return 2, "[gen_destructure] konst does not build:\n" + outl[-3000:]
+            singles = [PRELUDE + render_fn(0, g) + "\nfn main() { run_0(); }\n" for g in chunk]
+            v = driver.rustc_verdicts(singles, extra=["--crate-type", "bin"]) if False else driver.rustc_verdicts([s_.replace("fn main() { run_0(); }", "pub fn entry() { run_0(); }") for s_ in singles])
             bad = [i for i in range(len(v)) if v[i][0] != 0]
-            msg = ("\n%s\n%s" % (render_fn(0, chunk[bad[0]]), v[bad[0]][1][-2000:])) if bad else outp[-3000:]
-            return 2, "[gen_destructure] a generated program does not compile (generator or konst acceptance problem, not an ownership verdict):" + msg
+            if not bad:
+                return 2, "[gen_destructure] batch does not build although every program builds alone:\n" + outp[-3000:]
+            for i in bad:
+                rejected.append((chunk[i][7], v[i][1][-800:]))
+            chunk = [g for i, g in enumerate(chunk) if i not in set(bad)]
+            rc, outp = run_batch(("c15m_b%d" if miri else "c15_b%d") % (b // per), chunk, timeout, miri=miri)
+            if rc is None:
+                return 2, "[gen_destructure] reduced batch still does not build:\n" + outp[-3000:]
         if miri and rc != 0 and "Undefined Behavior" in outp:
             path = driver.save_replay(prop, ENGINE, "miri", {"property": prop, "engine": ENGINE, "case": [g[7] for g in chunk], "log": outp[-6000:]})
             return 1, outp[-3000:] + "\nVIOLATION property=%s replay=%s\n" % (prop, path)
@@ -357,6 +368,11 @@ def run(prop, tier, seed, out, timeout, miri=False, **kw):
         text.append("  %s\n    %s" % (json.dumps(g[7]), "\n    ".join(lines[:3])))
         text.append("VIOLATION property=%s replay=%s" % (prop, path))
         rc = 1
+    if rejected:
+        text.append("[gen_destructure] %d generated program(s) with documented-as-supported patterns do not compile; first: %s\n%s" % (len(rejected), json.dumps(rejected[0][0]), rejected[0][1]))
+        labels["programs_that_do_not_compile"] = len(rejected)
+        if rc == 0:
+            rc = 2
     wall = time.time() - t0
     eng = ENGINE + ("-miri" if miri else "")
     text.append("[%s %s] programs=%d evaluations=%d distinct_nontrivial=%d violations=%d wall=%.1fs" %
